@@ -354,6 +354,24 @@ pub fn run_type<T: Reg>(cx: &mut Cx, name: &str) {
 					inputs.push((v, "compact-grammar", None));
 				}
 			}
+			if desc.starts_with("(TColl") && matches!(cx.mode, Mode::C03 | Mode::C18 | Mode::C14) {
+				// claimed counts whose byte size is a multiple of 2^32 for element sizes 1..16 (a size
+				// computed in 32 bits wraps to a small number), in front of a short plausible tail
+				let tail = encode_guarded(&T::gen(&mut cx.rng, 0)).unwrap_or_default();
+				for c in [&[0x02u8, 0x00, 0x00, 0x40][..], &[0x02, 0x00, 0x00, 0x80], &[0x03, 0x00, 0x00, 0x00, 0x40], &[0x03, 0x00, 0x00, 0x00, 0x80], &[0x03, 0x01, 0x00, 0x00, 0x80], &[0x06, 0x00, 0x00, 0x80]] {
+					let mut v = c.to_vec();
+					v.extend_from_slice(&tail[1.min(tail.len())..tail.len().min(24)]);
+					inputs.push((v, "count-wraps-32", None));
+				}
+			}
+			if desc == "TDuration" {
+				// the nanosecond field on and around its bound
+				for n in [999_999_999u32, 1_000_000_000, 1_000_000_001, u32::MAX] {
+					let mut v = 5u64.to_le_bytes().to_vec();
+					v.extend_from_slice(&n.to_le_bytes());
+					inputs.push((v, "duration-nanos", None));
+				}
+			}
 			if desc == "TStr" && matches!(cx.mode, Mode::C03 | Mode::C18 | Mode::C14 | Mode::C08) {
 				// multi-byte characters straddling every small power-of-two offset (a validator
 				// working in blocks must see them whole)
@@ -756,6 +774,21 @@ fn oracle_c19<T: Reg>(cx: &mut Cx, name: &str, inp: &[u8], known: bool, rr: &RRe
 			}
 		},
 		Err(_) => cx.oracle.check(false, "panic", rp),
+	}
+	// a history on one counter: the decode (which may fail), then two more reads; the count keeps
+	// following what the wrapped input delivered
+	{
+		let mut rec = Rec::new(inp, known);
+		let out = catch_unwind(AssertUnwindSafe(|| {
+			let mut c = parity_scale_codec::CountedInput::new(&mut rec);
+			let _ = T::decode(&mut c);
+			let _ = u8::decode(&mut c);
+			let _ = <[u8; 2]>::decode(&mut c);
+			c.count()
+		}));
+		if let Ok(count) = out {
+			cx.oracle.check(count == rec.read_bytes && count == rec.pos as u64, "count!=delivered-after-history", rp);
+		}
 	}
 	// the same over the crate's own slice input: count == what the slice gave up, also after a failure
 	let mut s = inp;
